@@ -2,6 +2,7 @@ package service
 
 import (
 	"context"
+	"errors"
 	"fmt"
 	"sync"
 
@@ -9,6 +10,7 @@ import (
 	"github.com/KevoDB/kevo/pkg/common/iterator/filtered"
 	"github.com/KevoDB/kevo/pkg/common/log"
 	"github.com/KevoDB/kevo/pkg/engine/interfaces"
+	"github.com/KevoDB/kevo/pkg/engine/storage"
 	"github.com/KevoDB/kevo/pkg/replication"
 	"github.com/KevoDB/kevo/pkg/transaction"
 	"github.com/KevoDB/kevo/pkg/version"
@@ -76,14 +78,25 @@ func (s *KevoServiceServer) Get(ctx context.Context, req *pb.GetRequest) (*pb.Ge
 
 	value, err := s.engine.Get(req.Key)
 	if err != nil {
-		// Key not found or other error, return not found
-		return &pb.GetResponse{Found: false}, nil
+		if isKeyNotFound(err) {
+			return &pb.GetResponse{Found: false}, nil
+		}
+		// Any other engine error is an error, not an absent key
+		return nil, err
 	}
 
 	return &pb.GetResponse{
 		Value: value,
 		Found: true,
 	}, nil
+}
+
+// isKeyNotFound reports whether err means "no such key". The layers below
+// each declare their own sentinel with this meaning.
+func isKeyNotFound(err error) bool {
+	return errors.Is(err, interfaces.ErrKeyNotFound) ||
+		errors.Is(err, storage.ErrKeyNotFound) ||
+		errors.Is(err, transaction.ErrKeyNotFound)
 }
 
 // Put stores a key-value pair
@@ -327,6 +340,11 @@ func (s *KevoServiceServer) TxGet(ctx context.Context, req *pb.TxGetRequest) (*p
 		}
 
 		log.Debug("Transaction get failed for key %s: %v", keyStr, err)
+
+		if !isKeyNotFound(err) {
+			// Closed transaction, closed engine, read error: not "absent"
+			return nil, err
+		}
 
 		// Return a specific "not found" response
 		return &pb.TxGetResponse{
